@@ -68,7 +68,7 @@ def spell(req, spelling):
 
 
 def run_message(r, direction, method, reqtr, info, status, clv, pattern, end, pads, cfg=None, trailer_cl=None,
-                spelling=None, push=None):
+                spelling=None, push=None, stray=None):
     """pads: list of pad lengths (or None) per DATA frame.  spelling: how the client's request list is written.
     push: method of a request the server promises on the stream before it answers (None: no promise)."""
     total = sum(pattern)
@@ -101,10 +101,22 @@ def run_message(r, direction, method, reqtr, info, status, clv, pattern, end, pa
         msg_headers.append((b'content-length', str(clv).encode()))
     ended = False
     if client:
-        o = s.call('send_headers', 1, spell(req, spelling), end_stream=not reqtr)
+        sent = spell(req, spelling)
+        o = s.call('send_headers', 1, sent, end_stream=not reqtr)
         if not o.ok:
             r.violate('C16:harness:request-refused:%s' % spelling, o.brief())
             return
+        other = b'GET' if method == 'HEAD' else b'HEAD'
+        if stray == 'recycled-list' and isinstance(sent, list):
+            # the application reuses its list object for the next request (what was sent is what counts)
+            sent[0] = (b':method', other)
+        elif stray == 'refused-block' and reqtr:
+            # a second request-shaped block on the same stream, with another method, is refused (it stands where
+            # trailers would, and has no END_STREAM): the method of the request that was sent still decides
+            o = s.call('send_headers', 1, [(b':method', other)] + req[1:])
+            if o.ok:
+                r.violate('C16:harness:stray-request-block-accepted', '')
+                return
         if reqtr:
             s.call('send_headers', 1, [(b'x-t', b'1')], end_stream=True)
         if push:
@@ -209,7 +221,16 @@ def run_case(data):
             r.labels.add('request-spelled:' + spelling)
         if push:
             r.labels.add('promise-before-answer')
-    run_message(r, direction, method, reqtr, info, status, clv, pattern, end, pads, cfg, trailer_cl, spelling, push)
+    stray = None
+    if direction == 'response' and ch.chance(64):
+        stray = ch.pick(['recycled-list', 'refused-block'])
+        if stray == 'recycled-list':
+            # only visible to a library that keeps the caller's list: outbound normalisation off, plain list
+            cfg = dict(cfg, normalize_outbound_headers=False)
+            spelling = None
+        r.labels.add('request-' + stray)
+    run_message(r, direction, method, reqtr, info, status, clv, pattern, end, pads, cfg, trailer_cl, spelling, push,
+                stray)
     r.nontrivial = clv is not None or method == 'HEAD' or status in ('204', '304')
     r.labels.add(direction)
     if any(p is not None for p in pads):
